@@ -13,7 +13,8 @@ MANIFEST = dict(
          "chmod (file, directory), unlink, mkdir, rmdir, file renames (inside/in/out/replacing), directory renames onto a free "
          "name incl. synthetic events in walk order, and a directory of the tree renamed over an empty directory of the tree "
          "(C03_contract_rename_dir_replacing, under the synchronisation invariant RSync of C02: moved + parents modified + "
-         "synthetic moved + DirModified of the replaced directory from its IN_ATTRIB) (C03_contract_*), tied to the pipeline "
+         "synthetic moved + DirModified of the replaced directory from its IN_ATTRIB; _unwatched: the replaced directory has no "
+         "watch of its own) (C03_contract_*), tied to the pipeline "
          "LTS (C03_pipeline_tie); SHAPE laws of "
          "emit for every item (C03_flavour, C03_synthetic_only_descendants via C14, C03_moved_pair_paths/_cookie, "
          "C03_parent_modified); the unrestricted history-level soundness is REFUTED on the model for the code before the repairs "
